@@ -7,7 +7,7 @@ import os
 REPO=os.environ.get('REPO','/repo')
 src=open(REPO+'/dataStoreCommands.go').read()
 names=re.findall(r'^func \(dsc \*dataStoreCommand\) (\w+)\(', src, re.M)
-SKIP={'findListItem','lpushUnlocked','rpushUnlocked','lpopUnlocked','rpopUnlocked','removeUnlocked','linsertBeforeUnlocked','linsertAfterUnlocked','flush','dictScanUnlocked','setModified','lock','unlock','unlockAndUnblock','acquireExclusive','releaseExclusive','getKeyObjectUnlocked','setDirty'}
+SKIP={'anyWrongTypeSetUnlocked','findListItem','lpushUnlocked','rpushUnlocked','lpopUnlocked','rpopUnlocked','removeUnlocked','linsertBeforeUnlocked','linsertAfterUnlocked','flush','dictScanUnlocked','setModified','lock','unlock','unlockAndUnblock','acquireExclusive','releaseExclusive','getKeyObjectUnlocked','setDirty'}
 HELPERS={'setModified','diffWorker','intersectWorker','intersectWithLimitWorker','unionWorker','findListItem'}
 MUTHELPERS={'setModified','lpushUnlocked','rpushUnlocked','lpopUnlocked','rpopUnlocked','removeUnlocked','linsertBeforeUnlocked','linsertAfterUnlocked','ensureListUnlocked','newListUnlocked','setAddWorkerUnlocked'}
 WORKERS={'diffWorker','intersectWorker','intersectWithLimitWorker','unionWorker'}
@@ -25,7 +25,7 @@ EXTRA={
  'rpush': ['//@ ensures [C11] wakes: mutated ==> gWakeRequested == len(values) && gWakeKey == keyName', '//@ loopinv [C03] bounded: list != nil ==> list.count < (1<<40) + ri1', '//@ requires free sizes: len(values) < (1<<40)'],
  'lpushx': ['//@ ensures [C11] wakes: mutated ==> gWakeRequested == len(values) && gWakeKey == keyName', '//@ loopinv [C03] bounded: list != nil ==> list.count < (1<<40) + ri1', '//@ requires free sizes: len(values) < (1<<40)'],
  'rpushx': ['//@ ensures [C11] wakes: mutated ==> gWakeRequested == len(values) && gWakeKey == keyName', '//@ loopinv [C03] bounded: list != nil ==> list.count < (1<<40) + ri1', '//@ requires free sizes: len(values) < (1<<40)'],
- 'getListUnlocked': ['// keyspace invariant (C06): a list found in the keyspace is not empty - every command that shrinks or creates a list proves noempty at its exit', '//@ ensures free nonempty: list != nil ==> list.count > 0', '//@ ensures [C03] listwf: list != nil ==> listWF(list)', '//@ ensures [C03] listsize: list != nil ==> list.count < (1<<40)', '//@ use storeKey.getList.listwf', '//@ include listsframe'],
+ 'getListUnlocked': ['// keyspace invariant (C06): a list found in the keyspace is not empty - every command that shrinks or creates a list proves noempty at its exit', '//@ ensures [C03,C06] err.is.wrongtype: err != nil ==> *err == wrongTypeError && list == nil', '//@ ensures free nonempty: list != nil ==> list.count > 0', '//@ ensures [C03] listwf: list != nil ==> listWF(list)', '//@ ensures [C03] listsize: list != nil ==> list.count < (1<<40)', '//@ use storeKey.getList.listwf', '//@ include listsframe'],
  'ensureListUnlocked': ['//@ include listsframe', '//@ use dataStoreCommand.getListUnlocked.lists.kept dataStoreCommand.getListUnlocked.items.kept', '//@ ensures [C03] listwf: list != nil ==> listWF(list)', '//@ ensures [C03] listsize: list != nil ==> list.count < (1<<40)', '//@ ensures [C03] nonnil: err == nil ==> list != nil', '//@ use storeKey.getList.listwf dataStoreCommand.getListUnlocked.listwf'],
  'newListUnlocked': ['//@ include listsframe', '//@ use dataStoreCommand.getListUnlocked.lists.kept dataStoreCommand.getListUnlocked.items.kept', '//@ ensures [C03] listwf: list != nil && listWF(list)', '//@ use storeKey.getList.listwf dataStoreCommand.getListUnlocked.listwf'],
  'expire': ['//@ ensures internal [C07] table: exists ==> ((output.data == respInt(1)) == ((nx && !(old(sk.expiresAt) < maxTime)) || (!nx && xx && old(sk.expiresAt) < maxTime) || (!nx && !xx && gt && expiration > old(sk.expiresAt)) || (!nx && !xx && !gt && lt && expiration < old(sk.expiresAt)) || (!nx && !xx && !gt && !lt)))',
@@ -68,6 +68,8 @@ EXTRA={
  'lmove': ['//@ mode int', '//@ use *', '//@ ghostbefore "var item *listItem" : gSrcHead = srcList.head',
             '//@ ghostbefore "var item *listItem" : gSrcTail = srcList.tail',
             '//@ assertbefore "output.data = respBulkString(srcList.head.element)" [C03] rotate.single: srcKeyName == destKeyName && srcList.count == 1',
+            # the rotated element is still in the list: the waiters of the list are told, as after any push (a BLMOVE k k woken by a push keeps the element there for the next waiter)
+            '//@ assertbefore "output.data = respBulkString(srcList.head.element)" [C03,C11] rotated.wakes: uk.elements == 1 && uk.keyName == destKeyName',
             '//@ assertbefore "element := item.element" [C03] source.end: item == ite(srcLeft, gSrcHead, gSrcTail)',
             '//@ assertbefore "dsc.lpushUnlocked(destKeyName, destList, element)" [C03] dest.left: destLeft',
             '//@ assertbefore "dsc.rpushUnlocked(destKeyName, destList, element)" [C03] dest.right: !destLeft',
@@ -75,12 +77,12 @@ EXTRA={
             '//@ ghostbefore "var item *listItem" : gSrcCount = srcList.count',
             '//@ ghostbefore "var item *listItem" : gDstCount = destList.count',
             '//@ requires !gMoved',
-            '//@ ghostafter "uk.elements = 1" : gMoved = true',
+            '//@ ghostbefore "output.data = respBulkString(element)" : gMoved = true',
             '//@ ensures internal [C03] moved.counts: gMoved && srcList != destList ==> srcList.count == gSrcCount - 1 && destList.count == gDstCount + 1',
             '//@ ensures internal [C03] rotated.count: gMoved && srcList == destList ==> srcList.count == gSrcCount',
             '//@ ensures internal [C03] placed: gMoved ==> listWF(destList) && (destLeft ==> destList.seq[0].element == element) && (!destLeft ==> destList.seq[destList.count-1].element == element)',
             '//@ ensures internal [C03] reply: gMoved ==> output.data == respBulkString(element)',
-            '//@ assertbefore "uk.elements = 1" [C03] taken: item == ite(srcLeft, gSrcHead, gSrcTail) && item.owner == nil && element == item.element',
+            '//@ assertbefore "output.data = respBulkString(element)" [C03] taken: item == ite(srcLeft, gSrcHead, gSrcTail) && item.owner == nil && element == item.element',
             '//@ ensures [C11] wake.one: gMoved ==> gWakeRequested == 1 && gWakeKey == destKeyName'],
  'scan': ['//@ requires free tablesize: dictSized(dsc.ds.data)', '//@ touches C17', '//@ requires [C17,C13] count.positive: count >= 1', '//@ requires !scanStarted'],
  'lpos': ['//@ ghostbefore "pos := 0" : gMax0 = maxLength',
@@ -356,9 +358,13 @@ EXTRA={
             '//@ use newRedisDict.empty',
             '//@ ensures internal [C05] intersection: !wrongType && objExists ==> allstr(q, d.vdom[q] == (m.vdom[q] && gAcc[q]))',
             '//@ ensures internal [C05] missing.first: !wrongType && !objExists ==> allstr(q, !d.vdom[q])',
-            '//@ loop "for _, keyName := range keyNames" invariant [C05] fresh: d != nil && m != nil && d.scratch && !m.scratch && !wrongType && dictSized(m)',
-            '//@ loop "for _, keyName := range keyNames" invariant [C05] operands: forall r *redisDict :: !r.scratch ==> r.vdom == old(r.vdom) && r.vval == old(r.vval) && r.count == old(r.count)',
-            '//@ loop "for _, keyName := range keyNames" invariant [C05] result: allstr(q, d.vdom[q] == (m.vdom[q] && gAcc[q]))',
+            '//@ loop "for idx, keyName := range keyNames" invariant [C05] fresh: d != nil && m != nil && d.scratch && !m.scratch && !wrongType && dictSized(m)',
+            '//@ loop "for idx, keyName := range keyNames" invariant [C05] operands: forall r *redisDict :: !r.scratch ==> r.vdom == old(r.vdom) && r.vval == old(r.vval) && r.count == old(r.count)',
+            '//@ loop "for idx, keyName := range keyNames" invariant [C05] result: allstr(q, d.vdom[q] == (m.vdom[q] && gAcc[q]))',
+            # SINTER / SINTERSTORE: an absent operand makes the result empty, but the operands after it are still type-checked
+            '//@ ghostentry gRestChecked = false',
+            '//@ ghostafter "wrongType = dsc.anyWrongTypeSetUnlocked(" : gRestChecked = true',
+            '//@ assertbefore "d = newRedisDict()" [C05] rest.checked: gRestChecked',
             '//@ loop "for i := m.createIterator(); i.next();" invariant [C05] fresh: d != nil && m != nil && m2 != nil && d.scratch && !m.scratch && !m2.scratch && i != nil && i.dict == m && !wrongType && d.vdom == gSnapDom && dictSized(m)',
             '//@ loop "for i := m.createIterator(); i.next();" invariant [C05] operands: forall r *redisDict :: !r.scratch ==> r.vdom == old(r.vdom) && r.vval == old(r.vval) && r.count == old(r.count)',
             '//@ loop "for i := m.createIterator(); i.next();" invariant [C05] collected: allstr(q, gRem[q] == (m.vdom[q] && !m2.vdom[q] && dslot(sip(q), len(m.buckets)) < int(i.bucketNumber)))',
@@ -370,7 +376,7 @@ EXTRA={
             '//@ loop "for _, removalName := range removalNames" invariant [C05] removing: allstr(q, d.vdom[q] == (gSnapDom[q] && !gDone[q])) && allstr(q, !gDone[q] || gRem[q])',
             '//@ loop "for _, removalName := range removalNames" invariant [C05] progress: allstr(q, !(gRem[q] && gRemIdx[q] < ri3) || gDone[q])',
             '//@ loop "for _, removalName := range removalNames" invariant [C05] keep: allstr(q, gRem[q] == (m.vdom[q] && !m2.vdom[q])) && allstr(q, !gRem[q] || (0 <= gRemIdx[q] && gRemIdx[q] < len(removalNames) && removalNames[gRemIdx[q]] == q)) && allstr(q, gSnapDom[q] == (m.vdom[q] && gAccPrev[q])) && allstr(q, gAcc[q] == (gAccPrev[q] && m2.vdom[q]))',
-            '//@ modifies ghost.gAcc ghost.gAccPrev ghost.gSnapDom ghost.gRem ghost.gRemIdx ghost.gDone',
+            '//@ modifies ghost.gAcc ghost.gAccPrev ghost.gSnapDom ghost.gRem ghost.gRemIdx ghost.gDone ghost.gRestChecked',
             '//@ use redisDictIter.next.view.skipped redisDictIter.next.view.done redisDictIter.next.view.unique',
             '//@ ensures [C05] operands: forall r *redisDict :: !r.scratch ==> r.vdom == old(r.vdom) && r.vval == old(r.vval) && r.count == old(r.count)',
             '//@ ensures [C05] result.scratch: !wrongType ==> d != nil && d.scratch'],
@@ -421,12 +427,15 @@ EXTRA={
             '//@ ensures [C02] msetnx.refused: flagHasOne(options, SET_NOT_EXIST) && gSawExisting ==> result.data == respInt(0)',
             '//@ ensures [C02] msetnx.accepted: flagHasOne(options, SET_NOT_EXIST) && !gSawExisting ==> result.data == respInt(1)',
             '//@ ensures internal [C02] all.stored: result.data != respInt(0) ==> allsel(i, 0, len(keys), dsc.ds.data.vdom[keys[i]])'],
- 'setKey': ['// without GET the reply tells whether the value was set: OK exactly when a new value was stored, nil when NX/XX held it back', '//@ ensures [C02] performed.reply: valid != VALUE_WRONG_TYPE && !flagHasOne(options, bitflags(SET_GET)) ==> ((val.data == rstrOK) == mutated) && (!mutated ==> val.data == nil)', '// APPEND: the stored value grows by exactly the argument, placed after the old bytes', '//@ ghostentry gOldLen = 0', '//@ ghostafter "strBytes := oldSk.getStringBytes()" : gOldLen = len(strBytes)', '//@ assertbefore "newSk := dsc.ds.newStoreKeyUnlocked(keyName)" [C02] appended.len: flagHasOne(options, SET_APPEND) ==> len(argBytes) == gOldLen + len(str)', '//@ assertbefore "newSk := dsc.ds.newStoreKeyUnlocked(keyName)" [C02] replaced: !flagHasOne(options, SET_APPEND) ==> len(argBytes) == len(str) && allsel(k, 0, len(str), argBytes[k] == str[k])', '//@ ensures internal [C02] nx.kept: exists && flagHasOne(options, SET_NOT_EXIST) ==> !mutated',
+ 'setKey': ['// without NX / XX the value is always stored (APPEND of an empty string to a missing key creates the key)', '//@ ensures [C02] unconditional.stores: valid != VALUE_WRONG_TYPE && !flagHasOne(options, SET_NOT_EXIST) && !flagHasOne(options, SET_EXISTS) ==> mutated', '// without GET the reply tells whether the value was set: OK exactly when a new value was stored, nil when NX/XX held it back', '//@ ensures [C02] performed.reply: valid != VALUE_WRONG_TYPE && !flagHasOne(options, bitflags(SET_GET)) ==> ((val.data == rstrOK) == mutated) && (!mutated ==> val.data == nil)', '// APPEND: the stored value grows by exactly the argument, placed after the old bytes', '//@ ghostentry gOldLen = 0', '//@ ghostafter "strBytes := oldSk.getStringBytes()" : gOldLen = len(strBytes)', '//@ assertbefore "newSk := dsc.ds.newStoreKeyUnlocked(keyName)" [C02] appended.len: flagHasOne(options, SET_APPEND) ==> len(argBytes) == gOldLen + len(str)', '//@ assertbefore "newSk := dsc.ds.newStoreKeyUnlocked(keyName)" [C02] replaced: !flagHasOne(options, SET_APPEND) ==> len(argBytes) == len(str) && allsel(k, 0, len(str), argBytes[k] == str[k])', '//@ ensures internal [C02] nx.kept: exists && flagHasOne(options, SET_NOT_EXIST) ==> !mutated',
             '//@ ensures internal [C02] xx.missing: !exists && flagHasOne(options, SET_EXISTS) ==> !mutated && val.data == nil',
             '//@ ensures internal [C02] get.old: exists && flagHasOne(options, bitflags(SET_GET)) && valid != VALUE_WRONG_TYPE ==> istype(val.data, respBulkString)',
             '//@ ensures internal [C02] stored: mutated ==> dsc.ds.data.vdom[keyName] && istype(dsc.ds.data.vval[keyName], *storeKey) && unbox(dsc.ds.data.vval[keyName], *storeKey) == newSk && flagHasOne(newSk.flags, FLAG_KEY_TYPE_STRING) && newSk.expiresAt == ite(exists && (flagHasOne(options, SET_KEEP_TTL) || flagHasOne(options, SET_APPEND)), old(oldSk.expiresAt), expiration)',
             '//@ ensures internal [C07] append.keeps.deadline: mutated && exists && flagHasOne(options, SET_APPEND) ==> newSk.expiresAt == old(oldSk.expiresAt)',
             '//@ ensures internal [C02] value: mutated && !flagHasOne(options, SET_APPEND) ==> istype(newSk.payload, []byte) && len(unbox(newSk.payload, []byte)) == len(str)'],
+ 'getKeySetExpiration': ['// GETEX with an expiry option: the deadline of a string becomes the one asked for; a key of another type keeps its deadline (the command fails)',
+            '//@ ensures internal [C07,C02] deadline.applied: objExists && exists == VALUE_EXISTS ==> sk.expiresAt == expiration && mutated',
+            '//@ ensures internal [C07,C02,C06] deadline.kept: objExists && exists == VALUE_WRONG_TYPE ==> sk.expiresAt == old(sk.expiresAt)'],
  'dictScanUnlocked': ['//@ callback isMatch','//@ pure','//@ endcallback'],
  'changeBits': ['//@ requires len(srcKeyNames) >= 1','//@ loop 1 invariant len(values) == ri1','//@ loop 2 invariant ri2 > 0 ==> resultBytes != nil'],
 }
@@ -446,7 +455,7 @@ NOEMPTY_LIST={'lpop','rpop','lremove','ltrim'}
 NOEMPTY_PUSH={'lpush','rpush'}
 # read-only commands: nothing in the keyspace is written, whatever the reply
 READONLY={'getKeys','keys','exists','getKeyType','getHashTableField','getHashTable','getHashTableFieldValues','getHashTableRandField','getHashTableFields','getHashTableValues','getHashTableCount','hashTableScan','getSet','getSetRandMember','getSetMembers','getSetCount','setScan','setHasMember','setHasMembers','lindex','llen','lrange','lpos','randomKey','scan','expireTime','dump','liveKeyCount','setOperation','setOperationCount','diffSet','intersectSet','intersectSetCount','unionSet'}
-out=['//go:build verif','','package redisemu','','// GENERATED by /verif/scripts/gen_store_contracts.py — do not edit by hand.','']
+out=['//go:build verif','','package redisemu','','// GENERATED by /verif/scripts/gen_store_contracts.py — do not edit by hand.','','//@ ghost gWrongType bool','//@ ghost gRestChecked bool','']
 for n in names:
     if n in SKIP: continue
     helper = n.endswith('Unlocked') or n in HELPERS
@@ -457,7 +466,7 @@ for n in names:
     out.append('//@ requires dscOK(dsc)')
     out += EXTRA.get(n, [])
     fam = family(n)
-    C06T = '[C06,%s]' % fam if fam else '[C06]'
+    C06T = '[C06,C07,%s]' % fam if fam else '[C06,C07]'
     if n in READONLY:
         out.append('//@ ensures [C06%s] readonly: !mutated' % (','+fam if fam else ''))
         out.append('//@ loopinv [C06%s] readonly.loop: !mutated' % (','+fam if fam else ''))
@@ -475,6 +484,17 @@ for n in names:
         out.append('//@ use *')
         out.append('//@ loopinv [C03] listwf.loop: list != nil ==> listWF(list)')
         out.append('//@ ensures internal [C03] listwf: list != nil ==> listWF(list)')
+    # a list command on a key that holds another type answers the type error (the lookup's verdict is not swallowed)
+    body=re.search(r'^func \(dsc \*dataStoreCommand\) %s\(.*?^}' % n, src, re.M|re.S)
+    if body and 'list, err := dsc.getListUnlocked(keyName)' in body.group(0) and n not in ('lmove','lmpop'):
+        out.append('//@ ghostentry gWrongType = false')
+        out.append('//@ ghostafter "list, err := dsc.getListUnlocked(keyName)" : if err != nil : gWrongType = true')
+        hdr0=re.search(r'^func \(dsc \*dataStoreCommand\) %s\((.*?)\) (\(.*?\)|[\w\*\.\[\]]+)? ?\{' % n, src, re.M|re.S)
+        r0=hdr0.group(2) or ''
+        if 'output respValue' in r0:
+            out.append('//@ ensures [C03,C06] wrongtype.reported: gWrongType ==> output.data == wrongTypeError')
+        elif 'err *respErrorString' in r0:
+            out.append('//@ ensures [C03,C06] wrongtype.reported: gWrongType ==> err != nil && *err == wrongTypeError')
     if n in WORKERS:
         out.append('//@ loopinv scratch: d != nil ==> d.scratch')
         out.append('//@ loopinv nomut: mutated == old(mutated)')
